@@ -348,6 +348,7 @@ func c01Image(c *Ctx, cs Case, img []byte, cls string, positions []int) {
 	}
 	c.Count(cs.Key(), len(img) > 256, "image/"+cls)
 	c.Sample(cs)
+	c01PaddingTie(c, cs, len(img), 8)
 	fail := func(what, goObs, spec, matcher string) {
 		c.Fail(Failure{Kind: "property", Matcher: matcher, What: what, Case: cs, Go: clip(goObs), Spec: clip(spec)})
 	}
@@ -461,8 +462,31 @@ func c01Image(c *Ctx, cs Case, img []byte, cls string, positions []int) {
 	}
 }
 
+// c01PaddingTie: authenticode.PaddingBytes (the padding arithmetic behind the hashed stream and the certificate-table
+// entries) against the code TRANSLATED from it (Gen.lean; theorems C01g_padding*): padLen, the length of the slice
+// and whether it is all zero
+func c01PaddingTie(c *Ctx, cs Case, srcLen, blockSize int) {
+	if c.GenDrv == nil {
+		return
+	}
+	goObs := ""
+	if pan, _ := safely(func() {
+		pad, n := authenticode.PaddingBytes(srcLen, blockSize)
+		zero := true
+		for _, x := range pad {
+			zero = zero && x == 0
+		}
+		goObs = fmt.Sprintf("%d %d %v", n, len(pad), zero)
+	}); pan {
+		goObs = "panic"
+	}
+	c.GenTieGo(cs, fmt.Sprintf("PaddingBytes(%d, %d)", srcLen, blockSize), goObs, "gen.padding", fmt.Sprint(srcLen), fmt.Sprint(blockSize))
+}
+
 func c01Eval(c *Ctx, cs Case) {
 	switch cs.S("op") {
+	case "padding":
+		c01PaddingTie(c, cs, int(cs.I("n")), int(cs.I("blk")))
 	case "image":
 		s := specOfCase(cs)
 		b := buildPE(s)
@@ -514,6 +538,29 @@ func randomPositions(c *Ctx, n, k int) []int {
 }
 
 func c01Gen(c *Ctx) {
+	// the padding arithmetic on its own: every length 0..40 and the neighbourhood of every power of two below 2^62,
+	// with the library's block size and with other block sizes (powers of two: the domain of C01g_padding_pow2;
+	// a few others and negative lengths validate the translation of `&^` outside it)
+	if c.GenDrv != nil {
+		var lens []int
+		for n := 0; n <= 40; n++ {
+			lens = append(lens, n)
+		}
+		for k := 6; k <= 61; k++ {
+			for d := -9; d <= 9; d++ {
+				lens = append(lens, (1<<uint(k))+d)
+			}
+		}
+		lens = append(lens, (1<<62)-1, (1<<62)-8, -1, -5, -8, -1000003)
+		for i, n := range lens {
+			c01Eval(c, Case{"op": "padding", "n": int64(n), "blk": int64(8)})
+			if i%7 == 0 && n >= 0 {
+				for _, blk := range []int{1, 2, 4, 16, 512, 4096, 3, 12} {
+					c01Eval(c, Case{"op": "padding", "n": int64(n), "blk": int64(blk)})
+				}
+			}
+		}
+	}
 	for _, f := range []string{"tests/data/binary/HelloWorld.efi", "tests/data/binary/HelloWorld.efi.signed", "tests/data/binary/test.pecoff", "authenticode/testdata/test.pecoff", "authenticode/testdata/test.pecoff.signed", "tests/data/binary/linuxx64.efi.stub"} {
 		c01Eval(c, Case{"op": "file", "path": f})
 	}
